@@ -37,27 +37,33 @@ EXTENDS QcTests, TLC
 MASKED == -1
 
 NRows(tb)   == Len(tb.t)
+\* tb.hastime = FALSE: the stream is given no time array at all (tb.t then only fixes the number of rows);
+\* windows cannot be applied and time-based tests lack a required input
+TimeOf(tb)  == IF tb.hastime THEN tb.t ELSE <<>>
 InWin(tv, w) == (w[1] = NA \/ tv >= w[1]) /\ (w[2] = NA \/ tv < w[2])
-Covered(tb, w) == { i \in 1..NRows(tb) : InWin(tb.t[i], w) }
+Covered(tb, w) == IF tb.hastime THEN { i \in 1..NRows(tb) : InWin(tb.t[i], w) } ELSE 1..NRows(tb)
 Pick(s, S)  == IF s = <<>> THEN <<>>
                ELSE LET idx == SetToSortSeq(S, <) IN [k \in 1..Len(idx) |-> s[idx[k]]]
 Rank(i, S)  == Cardinality({ j \in S : j <= i })
 
-RunFns      == Fns \cup {"probe", "boom"}
+RunFns      == Fns \cup {"probe", "probe2", "boom"}      \* probe2: a test of the SAME name registered in another module
+ModName(fn) == CASE fn = "valid" -> "axds" [] fn \in {"press", "speed", "probe2"} -> "argo" [] OTHER -> "qartod"
 Loadable(e) == e.fn \in RunFns                         \* module and test name exist
 HasStream(tb, e) == e.stream \in DOMAIN tb.data        \* the data has that stream id
 
 \* the direct call of the test on the window rows
 CallOn(tb, e, S) ==
-    [fn |-> e.fn, x |-> Pick(tb.data[e.stream], S), t |-> Pick(tb.t, S), z |-> Pick(tb.z, S),
+    [fn |-> e.fn, x |-> Pick(tb.data[e.stream], S), t |-> Pick(TimeOf(tb), S), z |-> Pick(tb.z, S),
      lon |-> Pick(tb.lon, S), lat |-> Pick(tb.lat, S), hop |-> <<>>, p |-> e.p]
 
-MissingInput(tb, e) == e.fn = "dens" /\ tb.z = <<>>    \* the stream cannot supply a required input
+MissingInput(tb, e) ==                                 \* the stream cannot supply a required input
+    \/ e.fn = "dens" /\ tb.z = <<>>
+    \/ e.fn \in {"roc", "flat", "att", "clim", "speed"} /\ ~tb.hastime
 
 \* <<>> when the test produces no result (it raised), else << flags >>
 RunResult(tb, e, S) ==
     IF e.fn = "boom" \/ MissingInput(tb, e) THEN <<>>
-    ELSE IF e.fn = "probe" THEN << [i \in 1..Cardinality(S) |-> GOOD] >>
+    ELSE IF e.fn \in {"probe", "probe2"} THEN << [i \in 1..Cardinality(S) |-> GOOD] >>
     ELSE LET r == Rule(CallOn(tb, e, S), FALSE) IN
          IF r.ok THEN << [i \in 1..Len(r.flags) |-> CHOOSE f \in r.flags[i] : TRUE] >> ELSE <<>>
 
